@@ -226,7 +226,12 @@ def run_case(case, ctx):
     def ls(data, dx, method, **kw):
         ctx.op()
         try:
-            return float(get_length_scale(ScalarField(grid_of(shape, dx, aspect), data), method=method, **kw))
+            fld = ScalarField(grid_of(shape, dx, aspect), data)
+            image = fld.data.tobytes()
+            out = float(get_length_scale(fld, method=method, **kw))
+            if fld.data.tobytes() != image:
+                ctx.check("C17.field-unmodified", False, {"method": method, "dx": dx}, tags)
+            return out
         except Exception as e:  # noqa
             return repr(e)
 
